@@ -4,6 +4,7 @@ This is *workload*, not the searched dimension: each check searches schedules / 
 It is built around a pool of object shapes reused at several paths, so that registry merging, shared models,
 recursive models and comparator thresholds are reached.
 """
+import copy
 import random
 
 PLAIN_WORDS = ["red", "green", "blue", "on", "off", "idle", "A", "B", "x y", "né", "ok", "a,b", "it's", 'q"t', "a", "b"]
@@ -19,7 +20,7 @@ KEY_POOLS = {
     "odd": ["1st", "9lives", "a b", "a.b", "_private", "__dunder__", "$ref", "@id", "x!", "0day", "00x", "2nd_", "_0", "$", "-"],
 }
 SCALAR_KINDS = ["int", "float", "bool", "null", "str_plain", "str_long", "str_int", "str_float", "str_bool",
-                "str_date", "str_datetime", "str_time"]
+                "str_date", "str_datetime", "str_time", "str_time_tz"]
 CONTAINER_KINDS = ["list_empty", "list_int", "list_str", "list_mixed", "list_nested", "dict_empty", "dict_like",
                    "dict_mixed_keys"]
 ALL_FRAMEWORKS = ["base", "pydantic", "attrs", "dataclasses", "sqlmodel"]
@@ -51,7 +52,24 @@ def scalar(rng, kind):
         return rng.choice(["2020-01-02T03:04:05", "2018-11-30T12:00:00Z"])
     if kind == "str_time":
         return rng.choice(["12:30", "03:04:05"])
+    if kind == "str_time_tz":
+        # time-like strings the date parser accepts only with a warning (unknown timezone abbreviation) or not at all
+        return rng.choice(["09:30 EST", "10:15 XYZ", "7pm PST", "12:30 UTC", "25:61"])
     raise ValueError(kind)
+
+
+def collision_twin(key):
+    """Another spelling of a key that is renamed to the same Python identifier (snake <-> camel <-> kebab)."""
+    import re
+    if "_" in key and key.strip("_") == key:
+        parts = key.split("_")
+        return parts[0] + "".join(p.capitalize() for p in parts[1:])
+    if "-" in key:
+        return key.replace("-", "_")
+    m = re.sub(r"(?<=[a-z0-9])([A-Z])", lambda mo: "_" + mo.group(1).lower(), key)
+    if m != key and m.isidentifier():
+        return m
+    return None
 
 
 def numeric_twin(v, rng):
@@ -143,6 +161,24 @@ class Gen:
                 fields = [[key, self._field_spec(sid), rng.random() < k["p_missing"]] for key in keys[:width]]
             if not fields:
                 fields = [[self.keys[0], ["s", ["int"]], False]]
+            have = {f[0] for f in fields}
+            for f in list(fields):
+                # model names come from the keys that hold objects: give those keys the interesting spellings more often
+                if f[1][0] in ("obj", "list_obj", "list_obj_mixed") and rng.random() < k.get("p_special_model_key", 0.0):
+                    cand = rng.choice(KEY_POOLS["keyword"] + KEY_POOLS["odd"] + KEY_POOLS["unicode"])
+                    if cand not in have:
+                        have.discard(f[0])
+                        f[0] = cand
+                        have.add(cand)
+                # keys that collide after renaming (userId / user_id / user-id ...) with the same kind of value
+                if rng.random() < k.get("p_collide", 0.0):
+                    twin = collision_twin(f[0])
+                    if twin and twin not in have:
+                        if rng.random() < 0.5:
+                            # both spellings carry string pseudo-type values (converters, aliases, metadata paths)
+                            f[1] = ["s", [rng.choice(["str_int", "str_float", "str_bool", "str_date"])]]
+                        fields.append([twin, copy.deepcopy(f[1]), f[2]])
+                        have.add(twin)
             self.shapes.append(fields)
 
     # ---- instances ------------------------------------------------------------------------------------------
@@ -244,7 +280,9 @@ class Gen:
                                            [r"[a-h]\d", r"\d+", r"[a-z]+"], [r"\d"]]),
             "dict_keys_fields": rng.choice([[], [], [rng.choice(self.keys)]]),
             "max_literals": rng.choice([0, 1, 2, 3, 10, 10, 15, 20]),
-            "post_init_converters": rng.random() < 0.3,
+            # converters only matter when string pseudo-type values exist: spend the option where it has an effect
+            "post_init_converters": rng.random() < (0.5 if any(x.startswith("str_") and x not in ("str_plain", "str_long")
+                                                                for x in k["scalar_kinds"]) else 0.15),
             "convert_unicode": rng.random() < 0.7,
             "meta": rng.random() < 0.3,
             "preamble": rng.choice([None, None, "# preamble\nX = 1"]),
@@ -289,6 +327,8 @@ def draw_knobs(rng: random.Random, **fixed):
         "frameworks": [f for f in ALL_FRAMEWORKS if rng.random() < 0.6] or ["base"],
         "structures": rng.choice([["flat"], ["nested"], ["flat", "nested"]]),
         "chain": rng.random() < 0.08,
+        "p_special_model_key": rng.choice([0.0, 0.3, 0.6]),
+        "p_collide": rng.choice([0.0, 0.0, 0.15, 0.4]),
         "p_numeric_twin": rng.choice([0.0, 0.0, 0.5]),
         "bulk": rng.choice([0] * 240 + [1001, 1200, 2100]),
         "p_shuffle_keys": rng.choice([0.0, 0.0, 0.3, 1.0]),
